@@ -45,7 +45,7 @@ def _box(draw, x=None, y=None):
 
 @st.composite
 def pairs3d(draw, tier="quick"):
-    kind = draw(st.sampled_from(["indep", "near", "nested", "touch", "disjoint", "sliver", "axis", "overlap", "overlap", "corner", "corner"]))
+    kind = draw(st.sampled_from(["indep", "near", "nested", "touch", "disjoint", "sliver", "axis", "overlap", "overlap", "corner", "corner", "ulp"]))
     a = _box(draw)
     if kind == "sliver":
         a["size"] = [draw(GEN.fl(0.05, 0.1)), draw(GEN.fl(5, 30)), draw(GEN.fl(0.5, 3))]
@@ -64,6 +64,16 @@ def pairs3d(draw, tier="quick"):
             yaw=a["yaw"] + draw(GEN.fl(-e, e)),
             size=[w * (1 + draw(GEN.fl(-e, e))), l * (1 + draw(GEN.fl(-e, e))), h * (1 + draw(GEN.fl(-e, e)))],
         )
+    elif kind == "ulp":
+        # a's copy with every parameter moved by a few units in the last place (a box that went through a frame round
+        # trip): the class in which the GEOS overlay loses the intersection (known finding, see NC_SIG)
+        def nudge(v):
+            k = draw(st.integers(-4, 4))
+            for _ in range(abs(k)):
+                v = math.nextafter(v, math.inf if k > 0 else -math.inf)
+            return v
+
+        b.update(p=[nudge(c) for c in a["p"]], yaw=nudge(a["yaw"]), size=[nudge(c) for c in a["size"]])
     elif kind == "nested":
         s = draw(GEN.fl(0.2, 0.9))
         b.update(p=list(a["p"]), yaw=a["yaw"] + draw(st.sampled_from([0.0, PI, PI / 2])), size=[w * s, l * s, h * draw(GEN.fl(0.3, 1.5))])
@@ -133,6 +143,29 @@ def close(a, b, abs_tol, rel=0.0):
     return abs(a - b) <= abs_tol + rel * max(abs(a), abs(b))
 
 
+# Known finding (DESIGN §11 D19): for two footprints that coincide up to a few ulps without being bit-identical, the
+# GEOS overlay behind shapely's Polygon.intersection can return a degenerate geometry (the four shared corners as a
+# MULTIPOINT, area 0) in one argument order, so the library reports IoU 0 for boxes whose true IoU is 1 - 1e-15.
+# Measured failure region: corner displacement <= 1.3e-14 * max(1, |coordinate|); the class below is 1e-12 wide.
+NC_SIG = "near-coincident-footprints-intersection-lost"
+
+
+def near_coincident(a, b):
+    ca, cb = G.rect_corners(*D.ego_box(a)), G.rect_corners(*D.ego_box(b))
+    if ca == cb:
+        return False
+    scale = max(1.0, max(abs(c) for p in ca + cb for c in p))
+    h = max(max(min(math.dist(p, q) for q in cb) for p in ca), max(min(math.dist(p, q) for q in ca) for p in cb))
+    return h <= 1e-12 * scale
+
+
+def nsig(nc, sig, *scores):
+    """Signature of a failed IoU comparison: the known finding only for a near-coincident pair whose library BEV IoU collapsed."""
+    if nc and any(sc is not None and sc["iou2"] < 0.5 for sc in scores):
+        return NC_SIG
+    return sig
+
+
 @CHECK.given("pairs3d", lambda tier: pairs3d(tier), quick=700, thorough=160000)
 def pairs3d_body(ctx, d):
     a, b = d["a"], d["b"]
@@ -142,6 +175,9 @@ def pairs3d_body(ctx, d):
     if s is None:
         return
     ba, bb = D.ego_box(a), D.ego_box(b)
+    nc = near_coincident(a, b)
+    if nc:
+        ctx.cls("near_coincident_footprints")
     r_iou2 = G.box_iou_bev(ba, bb)
     r_iou3 = G.box_iou_3d(ba, a["p"][2], a["size"][2], bb, b["p"][2], b["size"][2])
     r_cd = math.dist(a["p"], b["p"])
@@ -156,8 +192,8 @@ def pairs3d_body(ctx, d):
 
     # exactness
     ctx.require(close(s["cd"], r_cd, 1e-6, 1e-9), "center-distance", lambda: f"center distance {s['cd']} vs Euclidean {r_cd}")
-    ctx.require(close(s["iou2"], r_iou2, 1e-7), "iou2d-value", lambda: f"BEV IoU {s['iou2']} vs reference {r_iou2} ({d['kind']})")
-    ctx.require(close(s["iou3"], r_iou3, 1e-7), "iou3d-value", lambda: f"3D IoU {s['iou3']} vs reference {r_iou3} ({d['kind']})")
+    ctx.require(close(s["iou2"], r_iou2, 1e-7), nsig(nc, "iou2d-value", s), lambda: f"BEV IoU {s['iou2']} vs reference {r_iou2} ({d['kind']})")
+    ctx.require(close(s["iou3"], r_iou3, 1e-7), nsig(nc, "iou3d-value", s), lambda: f"3D IoU {s['iou3']} vs reference {r_iou3} ({d['kind']})")
     # bounds
     for k in ("iou2", "iou3"):
         ctx.require(-1e-9 <= s[k] <= 1 + 1e-9, "iou-out-of-bounds", lambda: f"{k} = {s[k]}")
@@ -177,7 +213,7 @@ def pairs3d_body(ctx, d):
     if t is not None:
         ctx.require(
             close(s["iou2"], t["iou2"], 1e-9) and close(s["iou3"], t["iou3"], 1e-9) and close(s["cd"], t["cd"], 1e-9, 1e-12),
-            "asymmetric-score",
+            nsig(nc, "asymmetric-score", s, t),
             lambda: f"{s} vs swapped {t}",
         )
     # identical boxes
@@ -200,7 +236,7 @@ def pairs3d_body(ctx, d):
         tol_i = 1e-7 + 1e-13 * 100 / min_dim
         ctx.require(
             close(r["cd"], s["cd"], 1e-6, 1e-9) and close(r["iou2"], s["iou2"], tol_i) and close(r["iou3"], s["iou3"], tol_i),
-            "not-rotation-invariant",
+            nsig(nc, "not-rotation-invariant", s, r),
             lambda: f"{s} vs rotated-about-ego {r}",
         )
         rvals = G.plane_distance(G.rect_corners(*D.ego_box(ra)), G.rect_corners(*D.ego_box(rb)), G.rect_corners(*D.ego_box(rb)))
@@ -213,7 +249,7 @@ def pairs3d_body(ctx, d):
         tol_i = 1e-7 + 1e-13 * big / min_dim
         ctx.require(
             close(m["cd"], s["cd"], 1e-6 + 1e-12 * big, 1e-9) and close(m["iou2"], s["iou2"], tol_i) and close(m["iou3"], s["iou3"], tol_i),
-            "not-motion-invariant",
+            nsig(nc, "not-motion-invariant", s, m),
             lambda: f"{s} vs rotated+translated {m} (motion {d['motion']})",
         )
     # plane distance in the map frame (transforms supplied) equals the ego-frame value
@@ -230,7 +266,7 @@ def pairs3d_body(ctx, d):
         tol_i = 1e-7 + 1e-13 * big / min_dim
         ctx.require(
             close(pm["cd"], s["cd"], 1e-6 + 1e-11 * big, 1e-9) and close(pm["iou2"], s["iou2"], tol_i),
-            "score-frame-dependent",
+            nsig(nc, "score-frame-dependent", s, pm),
             lambda: f"{s} vs map frame {pm}",
         )
 
@@ -259,14 +295,16 @@ def roi_pairs(draw, tier="quick"):
     else:
         b = [x, y, w, h]
     shift = [draw(st.integers(0, 100000)), draw(st.integers(0, 100000))]
-    return {"kind": kind, "a": [x, y, w, h], "b": b, "shift": shift}
+    # ROI objects may also carry a 3D position (traffic lights): pixel scores must not depend on it
+    pos = [[draw(GEN.fl(-40, 40)) for _ in range(3)] for _ in range(2)] if draw(st.integers(0, 2)) == 0 else None
+    return {"kind": kind, "a": [x, y, w, h], "b": b, "shift": shift, "pos": pos}
 
 
-def _roi_scores(ctx, ra, rb, what="roi scores"):
+def _roi_scores(ctx, ra, rb, what="roi scores", pos=None):
     from perception_eval.evaluation.matching.object_matching import CenterDistanceMatching, IOU2dMatching
 
-    ea = D.obj2d({"roi": ra, "label": "car", "score": 0.5})
-    gb = D.obj2d({"roi": rb, "label": "car", "score": 1.0})
+    ea = D.obj2d({"roi": ra, "label": "car", "score": 0.5, "pos": pos[0] if pos else None})
+    gb = D.obj2d({"roi": rb, "label": "car", "score": 1.0, "pos": pos[1] if pos else None})
     out = None
     with ctx.under_test(what):
         out = {"cd": float(CenterDistanceMatching(ea, gb).value), "iou2": float(IOU2dMatching(ea, gb).value)}
@@ -289,9 +327,11 @@ def _roi_ref(a, b):
 def rois(ctx, d):
     a, b = d["a"], d["b"]
     ctx.cls("kind_" + d["kind"])
-    s = _roi_scores(ctx, a, b)
+    s = _roi_scores(ctx, a, b, pos=d.get("pos"))
     if s is None:
         return
+    if d.get("pos"):
+        ctx.cls("roi_with_3d_position")
     r_iou, r_cd = _roi_ref(a, b)
     ctx.mark_nontrivial(0 < r_iou < 1)
     ctx.require(close(s["iou2"], r_iou, 1e-9), "roi-iou-value", lambda: f"ROI IoU {s['iou2']} vs exact {r_iou} for {a} {b}")
@@ -332,6 +372,7 @@ def reposed_copies(ctx, d):
     if s0 is None:
         return
     min_dim = min(a["size"][0], a["size"][1], b["size"][0], b["size"][1])
+    nc = near_coincident(a, b)
     # (1) deepcopy + reassigned state (what interpolate_dynamic_object does), estimate only
     dyaw, dx, dy = d["motion"]
     dx, dy = max(-50.0, min(50.0, dx)), max(-50.0, min(50.0, dy))
@@ -350,8 +391,8 @@ def reposed_copies(ctx, d):
         ctx.mark_nontrivial(0.01 < r_iou2 < 0.99 or abs(r_iou2 - s0["iou2"]) > 0.01)
         tol_i = 1e-7 + 1e-13 * 200 / min_dim
         ctx.require(close(s1["cd"], r_cd, 1e-6, 1e-9), "reposed:center-distance", lambda: f"after re-posing a deep copy: centre distance {s1['cd']} vs {r_cd}")
-        ctx.require(close(s1["iou2"], r_iou2, tol_i), "reposed:iou2d-value", lambda: f"after re-posing a deep copy of the estimate to {a2['p'][:2]} / yaw {a2['yaw']}: BEV IoU {s1['iou2']} vs reference {r_iou2} (before the move: {s0['iou2']})")
-        ctx.require(close(s1["iou3"], r_iou3, tol_i), "reposed:iou3d-value", lambda: f"after re-posing a deep copy: 3D IoU {s1['iou3']} vs reference {r_iou3}")
+        ctx.require(close(s1["iou2"], r_iou2, tol_i), nsig(near_coincident(a2, b), "reposed:iou2d-value", s1), lambda: f"after re-posing a deep copy of the estimate to {a2['p'][:2]} / yaw {a2['yaw']}: BEV IoU {s1['iou2']} vs reference {r_iou2} (before the move: {s0['iou2']})")
+        ctx.require(close(s1["iou3"], r_iou3, tol_i), nsig(near_coincident(a2, b), "reposed:iou3d-value", s1), lambda: f"after re-posing a deep copy: 3D IoU {s1['iou3']} vs reference {r_iou3}")
         vals = G.plane_distance(G.rect_corners(*ba2), G.rect_corners(*bb), G.rect_corners(*bb))
         ctx.require(any(close(s1["pd"], v, 1e-6, 1e-9) for v in vals), "reposed:plane-distance-value", lambda: f"after re-posing a deep copy: plane distance {s1['pd']} vs {vals}")
         with ctx.under_test("get_footprint(re-posed copy)"):
@@ -372,7 +413,7 @@ def reposed_copies(ctx, d):
         tol_i = 1e-7 + 1e-13 * big / min_dim
         ctx.require(
             close(s2["cd"], s0["cd"], 1e-6 + 1e-11 * big, 1e-9) and close(s2["iou2"], s0["iou2"], tol_i) and close(s2["iou3"], s0["iou3"], tol_i),
-            "converted-to-map:score-differs",
+            nsig(nc, "converted-to-map:score-differs", s0, s2),
             lambda: f"ego-frame scores {s0} vs the same objects after convert_objects_to_global {s2} (ego pose {ego})",
         )
         vals0 = G.plane_distance(G.rect_corners(*D.ego_box(a)), G.rect_corners(*D.ego_box(b)), G.rect_corners(*D.ego_box(b)))
@@ -387,6 +428,6 @@ def reposed_copies(ctx, d):
             tol_i = 1e-7 + 1e-13 * big / min_dim
             ctx.require(
                 close(s3["cd"], s0["cd"], 1e-6 + 1e-11 * big, 1e-9) and close(s3["iou2"], s0["iou2"], tol_i),
-                "round-trip-through-map:score-differs",
+                nsig(nc, "round-trip-through-map:score-differs", s0, s3),
                 lambda: f"{s0} vs after base_link -> map -> base_link {s3}",
             )
